@@ -24,6 +24,10 @@ CHECKS = {
             "closure BFS (state space closes: every stream length, every weak order pattern incl. both zeros) of the real selection methods x sort/max/min/arg reference for lengths 1..5 (7 thorough); macro-step exploration of <=2/3 constant/ramp segments for every length 1..=254",
             "The algorithms only compare and copy, so a closed exploration over an alphabet of n+1 ordered values plus both zeros covers every behaviour class of a length-n window for streams of any length; outputs are compared exactly (up to the sign of zero), SMM's exported window must hold the last n inputs.",
             "Trusted: the order-pattern lifting argument, the sort-based reference. Lengths above 7 are covered by segment streams only."),
+    "C11": ("DESIGN.md §6 C11",
+            "total enumeration of set(name, text) over every public parameter (= key of the serde-JSON form) x every value text of its type (all 256 integers, float list, source names, 15 kinds x lengths, booleans, garbage) and every foreign name, on static and dynamic configs; depth-bounded exploration of every default indicator comparing result shape and static-vs-dyn results on every stream",
+            "Generic, no per-indicator code: the parameter list is derived from the config's own serialized form, so a setter wired to the wrong field, a missing setter, a setter that mutates on error, a wrong size() or a diverging Dyn impl is seen for every indicator and every parameter.",
+            "Trusted: serde-JSON key set == public parameters (checked by reading the structs); example::Example (private fields, no serde on its instance) gets the shape check only."),
     "C14": ("DESIGN.md §6 C14",
             "closure BFS of Cross/CrossAbove/CrossUnder (+ swapped series, binary()) over all pairs of 6 values incl. both zeros and the smallest subnormal; closure BFS of the three reversal detectors for (left,right) in {1,2}^2 (+{1,2,3} thorough) over a 3-symbol alphabet, running through the whole range of the position counter; deviation-bounded streams of 600 steps for boundary (quick) / ~12 000 (thorough) (left,right) pairs",
             "The crossing detectors' state is the last difference, the reversal detectors' state a bounded window plus counters, so the product space closes and the verdict holds for streams of every length over the alphabet, including far beyond PeriodType::MAX.",
